@@ -27,7 +27,8 @@ TECHNIQUE = 'Lean 4 proof (ring_nf on traced kernels, Mathlib complex exponentia
 def generate(ctx):
     info = dict(kernels=shared.gen_kernels()[0], asm=shared.gen_asm()[0])
     THEOREMS[:] = ([N + t for t in ("helmholtz_conj_symmetry", "imag_wavenumber_is_modified", "sl_kernel_symmetric",
-                                    "adl_is_dl_transposed", "sl_small_k_kernel_bound")]
+                                    "adl_is_dl_transposed", "sl_small_k_kernel_bound", "regular_part_transposed",
+                                    "regular_part_scales_with_kernel")]
                    + shared.KERNEL_FACTS["helmholtz"] + shared.KERNEL_FACTS["modified"] + shared.KERNEL_FACTS["laplace"]
                    + ["BemppVerif.C12.coincident_rule_swap_invariant"])
     return info
